@@ -33,6 +33,7 @@ import Driver.X509Names
 import Driver.KeyType
 import Driver.TemplateReuse
 import Driver.CRLIssuer
+import Driver.PubHex
 open Gmsm
 
 def dispatch (toks : List String) : String :=
@@ -106,6 +107,9 @@ def dispatch (toks : List String) : String :=
     | some r => r
     | none =>
     match Driver.crlIssuerDispatch toks with
+    | some r => r
+    | none =>
+    match Driver.pubHexDispatch toks with
     | some r => r
     | none =>
     match toks with
